@@ -1,3 +1,427 @@
-import DnsModel.Renamer
+/-
+  C05 — Decompression keeps the message; output is pointer-free, valid and stable.
+  `uncompress_canonical`: for every accepted packet and every reference offset, decompression
+  returns the 12 header bytes followed by the canonical form of the question and of every record
+  of the three sections in wire order — owner and data names replaced by their pointer-free
+  encodings (same labels), the eight fixed bytes and all other data (OPT included) verbatim, the
+  data length recomputed — and the new position of the reference offset.
+-/
+import DnsModel.Lemmas.CanonRun
 namespace Dns.C05
+open Dns Res
+
+/-- the new position of `ref` after the question and the three runs -/
+def carried (p : Bytes) (L : C03.Layout p) (ref : Nat) (qc : Bytes) (pa pn pr : List Bytes) : Option Nat :=
+  let n0 : Option Nat := if ref = 12 then some 12 else none
+  let n1 := carry ref L.answers pa (12 + qc.length) n0
+  let n2 := carry ref L.authority pn (12 + qc.length + pa.flatten.length) n1
+  let n3 := carry ref L.additional pr (12 + qc.length + pa.flatten.length + pn.flatten.length) n2
+  if ref = p.length then some (12 + qc.length + pa.flatten.length + pn.flatten.length + pr.flatten.length) else n3
+
+private theorem section_fold {pp : PP} {sec : Section} {l : List RecPos} {off e : Nat} {ob oe : Bool}
+    (hl : RRsL pp.packet sec l off ob e oe) (hlen : l.length < 65536)
+    (step : PP → Cursor → Res (Option Cursor))
+    (hwalk : ∃ cs, collectWalk pp step (l.length + 1) (Cursor.new sec) = .ok cs ∧ cs.map posOf = l.map some)
+    (ref : Nat) (st : UState) :
+    ∃ ps, CanonRun pp.packet l ps ∧
+      walkFold pp step (uncompressItem pp ref true) sectionFuel (Cursor.new sec) st =
+        .ok { out := st.out ++ ps.flatten, newOffset := carry ref l ps st.out.length st.newOffset } := by
+  obtain ⟨cs, hcs, hpos⟩ := hwalk
+  have hm := collectWalk_mono _ _ _ hcs (sectionFuel - (l.length + 1))
+  have e : l.length + 1 + (sectionFuel - (l.length + 1)) = sectionFuel := by unfold sectionFuel; omega
+  rw [e] at hm
+  rw [walkFold_collect _ _ _ _ hm]
+  exact fold_section hl ref cs hpos st
+
+/-- **the shape of the output** -/
+theorem uncompress_canonical {p : Bytes} {v : View} (h : parse p = .ok v) (ref : Nat) :
+    ∃ (L : C03.Layout p) (qc : Bytes) (pa pn pr : List Bytes),
+      QCanon p L.qe qc ∧ CanonRun p L.answers pa ∧ CanonRun p L.authority pn ∧ CanonRun p L.additional pr ∧
+      uncompressWithPreviousOffset p ref =
+        match carried p L ref qc pa pn pr with
+        | some n => .ok (p.take 12 ++ qc ++ pa.flatten ++ pn.flatten ++ pr.flatten, n)
+        | none => .panic := by
+  obtain ⟨L, hl, v1, v2, v3, v4, hno, _⟩ := C03.layout_full h
+  have ia : secInfo (PP.ofView p v) .answer = .ok (L.answers.length, if L.answers.length > 0 then some (L.qe + 4) else none) := by
+    simp [secInfo, PP.ofView, ancount, (be16_ok_of_le (p := p) (i := 6) (by omega)).1, L.na, v2]
+  have inn : secInfo (PP.ofView p v) .nameServers = .ok (L.authority.length, if L.authority.length > 0 then some L.e2 else none) := by
+    simp [secInfo, PP.ofView, nscount, (be16_ok_of_le (p := p) (i := 8) (by omega)).1, L.nn, v3]
+  have ir : secInfo (PP.ofView p v) .additional = .ok (L.additional.length, if L.additional.length > 0 then some L.e3 else none) := by
+    simp [secInfo, PP.ofView, arcount, (be16_ok_of_le (p := p) (i := 10) (by omega)).1, L.nr, v4]
+  have wa := walk_skip (pp := PP.ofView p v) L.ha ia
+  have wn := walk_skip (pp := PP.ofView p v) L.hn inn
+  have wr := walk_incl (pp := PP.ofView p v) L.hr ir
+  have ea : nonOpt p L.answers = L.answers := nonOpt_eq_self (fun r hr => hno r (by simp [hr]))
+  have en : nonOpt p L.authority = L.authority := nonOpt_eq_self (fun r hr => hno r (by simp [hr]))
+  simp only [PP.ofView] at wa wn
+  rw [ea] at wa
+  rw [en] at wn
+  -- the question
+  obtain ⟨qe', hqe', hqw⟩ := C03.question_walk h
+  have hqe : qe' = L.qe := nameEnds_functional hqe' L.hq.1
+  subst hqe
+  obtain ⟨ls, hv⟩ := L.hq.1
+  have hqm := collectWalk_mono _ _ _ hqw (sectionFuel - 2)
+  have e2 : 2 + (sectionFuel - 2) = sectionFuel := by unfold sectionFuel; omega
+  rw [e2] at hqm
+  have hlt6 := get16_lt p 6
+  have hlt8 := get16_lt p 8
+  have hlt10 := get16_lt p 10
+  let st0 : UState := { out := p.take 12, newOffset := none }
+  have hq := uncompressItem_question (pp := PP.ofView p v) (by simpa [PP.ofView] using hv) (by simpa [PP.ofView] using L.hq.2) ref st0
+  let st1 : UState := { out := st0.out ++ ((encLabels ls ++ [0]) ++ (p.drop L.qe).take 4),
+                         newOffset := if ref = 12 then some st0.out.length else st0.newOffset }
+  obtain ⟨pa, hpa, fa⟩ := section_fold (pp := PP.ofView p v) L.ha (by rw [L.na]; exact hlt6) nextSkippingOpt wa ref st1
+  obtain ⟨pn, hpn, fn⟩ := section_fold (pp := PP.ofView p v) L.hn (by rw [L.nn]; exact hlt8) nextSkippingOpt wn ref
+    { out := st1.out ++ pa.flatten, newOffset := carry ref L.answers pa st1.out.length st1.newOffset }
+  obtain ⟨pr, hpr, fr⟩ := section_fold (pp := PP.ofView p v) L.hr (by rw [L.nr]; exact hlt10) nextIncludingOpt wr ref
+    { out := st1.out ++ pa.flatten ++ pn.flatten,
+      newOffset := carry ref L.authority pn (st1.out ++ pa.flatten).length (carry ref L.answers pa st1.out.length st1.newOffset) }
+  refine ⟨L, (encLabels ls ++ [0]) ++ (p.drop L.qe).take 4, pa, pn, pr, ⟨ls, hv, rfl⟩, hpa, hpn, hpr, ?_⟩
+  unfold uncompressWithPreviousOffset
+  have hlen12 : ¬ (p.length < 12) := by omega
+  simp only [failIf, DNS_HEADER_SIZE, hlen12, decide_false, Bool.false_eq_true, if_false, bind_ok,
+    slice_ok (p := p) (a := 0) (b := 12) ⟨by omega, by omega⟩, parsePP, h, pure_eq, List.drop_zero, Nat.sub_zero]
+  rw [walkFold_collect _ _ _ _ hqm]
+  simp only [foldRes, PP.ofView] at hq ⊢
+  simp only [PP.ofView] at fa fn fr
+  rw [hq]
+  simp only [Res.bind, bind_ok]
+  rw [fa]
+  simp only [bind_ok]
+  rw [fn]
+  simp only [bind_ok]
+  rw [fr]
+  simp only [bind_ok]
+  have hl12 : (p.take 12).length = 12 := by simp; omega
+  unfold carried
+  simp only [st1, st0, List.length_append, hl12]
+  by_cases hend : ref = p.length
+  · simp [hend, unwrap, List.append_assoc, Nat.add_assoc]
+  · have : (ref == p.length) = false := by simp [hend]
+    simp only [this, Bool.false_eq_true, if_false, hend]
+    simp only [unwrap, List.append_assoc]
+    generalize carry ref L.additional pr _ _ = car
+    cases car <;> simp
+
+end Dns.C05
+
+namespace Dns.C05
+open Dns Res
+
+/-- what the output of decompression is, for the layout `L` of the input -/
+structure Output (p : Bytes) (L : C03.Layout p) where
+  qc : Bytes
+  pa : List Bytes
+  pn : List Bytes
+  pr : List Bytes
+  hq : QCanon p L.qe qc
+  ha : CanonRun p L.answers pa
+  hn : CanonRun p L.authority pn
+  hr : CanonRun p L.additional pr
+
+def Output.bytes {p : Bytes} {L : C03.Layout p} (o : Output p L) : Bytes :=
+  p.take 12 ++ o.qc ++ o.pa.flatten ++ o.pn.flatten ++ o.pr.flatten
+
+/-- **the output is accepted**, has a layout with the same numbers of records of the same types in
+the same order, and every piece of it — question and records — is already in canonical form, with
+the canonical forms of the input: same labels in every name, same fixed fields, same other data. -/
+theorem output_layout {p : Bytes} {v : View} (h : parse p = .ok v) {L : C03.Layout p} (o : Output p L) :
+    WF o.bytes ∧ ∃ L' : C03.Layout o.bytes,
+      QCanon o.bytes L'.qe o.qc ∧ CanonRun o.bytes L'.answers o.pa ∧ CanonRun o.bytes L'.authority o.pn ∧
+      CanonRun o.bytes L'.additional o.pr ∧
+      L'.answers.map (fun r => get16 o.bytes r.ne) = L.answers.map (fun r => get16 p r.ne) ∧
+      L'.authority.map (fun r => get16 o.bytes r.ne) = L.authority.map (fun r => get16 p r.ne) ∧
+      L'.additional.map (fun r => get16 o.bytes r.ne) = L.additional.map (fun r => get16 p r.ne) ∧
+      L'.answers.map (·.off) = starts (12 + o.qc.length) o.pa ∧
+      L'.authority.map (·.off) = starts (12 + o.qc.length + o.pa.flatten.length) o.pn ∧
+      L'.additional.map (·.off) = starts (12 + o.qc.length + o.pa.flatten.length + o.pn.flatten.length) o.pr ∧
+      (∀ r ∈ L'.answers ++ L'.authority ++ L'.additional, SelfCanon o.bytes r) := by
+  obtain ⟨hl, hqd, qe0, _, _, _, _, _, hne0, _, hcl, _, _, _, _⟩ := parse_ok_decomp h
+  have hqe0 : qe0 = L.qe := nameEnds_functional hne0 L.hq.1
+  subst hqe0
+  have hwf := C02.accepted_wf p v h
+  obtain ⟨qc, pa, pn, pr, ⟨ls, hv, hqc⟩, hpa, hpn, hpr⟩ := o
+  simp only [Output.bytes]
+  generalize hu : p.take 12 ++ qc ++ pa.flatten ++ pn.flatten ++ pr.flatten = u
+  have hH : (p.take 12).length = 12 := by simp; omega
+  have hq4 : ((p.drop L.qe).take 4).length = 4 := length_take_drop L.hq.2
+  obtain ⟨hok, hw, hg⟩ := validName_ok hv
+  -- header
+  have hagH : Agree p u 0 0 12 := by
+    have := agree_of_eq (p := p) (u := u) (A := []) (B := qc ++ pa.flatten ++ pn.flatten ++ pr.flatten) (a := 0) (n := 12)
+      (by rw [← hu]; simp) (by omega)
+    simpa using this
+  have hg16 : ∀ i, i + 2 ≤ 12 → get16 u i = get16 p i := by
+    intro i hi
+    have := hagH.get16 (i := i) hi
+    simpa using this
+  -- question
+  have hvq : ValidName u 12 ls (12 + labSum ls + 1) := by
+    have := validName_at (u := u) (A := p.take 12) (B := (p.drop L.qe).take 4 ++ pa.flatten ++ pn.flatten ++ pr.flatten)
+      (by rw [← hu, hqc]; simp) hok hw hg
+    rw [hH] at this; exact this
+  have hqclen : qc.length = labSum ls + 1 + 4 := by rw [hqc, List.length_append, encLen_eq, hq4]
+  have hA : (p.take 12 ++ (encLabels ls ++ [0])).length = 12 + labSum ls + 1 := by
+    rw [List.length_append, hH, encLen_eq]; omega
+  have hagQ : Agree p u L.qe (12 + labSum ls + 1) 4 := by
+    have := agree_of_eq (p := p) (u := u) (A := p.take 12 ++ (encLabels ls ++ [0])) (B := pa.flatten ++ pn.flatten ++ pr.flatten)
+      (a := L.qe) (n := 4) (by rw [← hu, hqc]; simp) L.hq.2
+    rw [hA] at this; exact this
+  have hclass : get16 u (12 + labSum ls + 1 + 2) = 1 := by rw [hagQ.get16 (i := 2) (by omega)]; exact hcl
+  have hwinQ : (u.drop (12 + labSum ls + 1)).take 4 = (p.drop L.qe).take 4 := by
+    have := window_eq (u := u) (A := p.take 12 ++ (encLabels ls ++ [0])) (w := (p.drop L.qe).take 4)
+      (B := pa.flatten ++ pn.flatten ++ pr.flatten) (by rw [← hu, hqc]; simp)
+    rw [hA, hq4] at this; exact this
+  -- sections
+  have hpre1 : (p.take 12 ++ qc).length = 12 + labSum ls + 1 + 4 := by rw [List.length_append, hH, hqclen]; omega
+  obtain ⟨la', hla, rla, cla, tla, ola, sla⟩ := canonRun_placed L.ha pa hpa (p.take 12 ++ qc) (pn.flatten ++ pr.flatten)
+  have eu1 : p.take 12 ++ qc ++ pa.flatten ++ (pn.flatten ++ pr.flatten) = u := by rw [← hu]; simp
+  rw [eu1] at rla cla tla sla
+  rw [hpre1] at rla ola
+  obtain ⟨ln', hln, rln, cln, tln, oln, sln⟩ := canonRun_placed L.hn pn hpn (p.take 12 ++ qc ++ pa.flatten) pr.flatten
+  have hpre2 : (p.take 12 ++ qc ++ pa.flatten).length = 12 + labSum ls + 1 + 4 + pa.flatten.length := by
+    rw [List.length_append, hpre1]
+  rw [hu] at rln cln tln sln
+  rw [hpre2] at rln oln
+  obtain ⟨lr', hlr, rlr, clr, tlr, olr, slr⟩ := canonRun_placed L.hr pr hpr (p.take 12 ++ qc ++ pa.flatten ++ pn.flatten) []
+  have hpre3 : (p.take 12 ++ qc ++ pa.flatten ++ pn.flatten).length =
+      12 + labSum ls + 1 + 4 + pa.flatten.length + pn.flatten.length := by
+    rw [List.length_append, hpre2]
+  have eu3 : p.take 12 ++ qc ++ pa.flatten ++ pn.flatten ++ pr.flatten ++ [] = u := by rw [← hu]; simp
+  rw [eu3] at rlr clr tlr slr
+  rw [hpre3] at rlr olr
+  have hulen : u.length = 12 + labSum ls + 1 + 4 + pa.flatten.length + pn.flatten.length + pr.flatten.length := by
+    rw [← hu, List.length_append, hpre3]
+  rw [← hulen] at rlr
+  have c6 : la'.length = get16 u 6 := by rw [hla, L.na, hg16 6 (by omega)]
+  have c8 : ln'.length = get16 u 8 := by rw [hln, L.nn, hg16 8 (by omega)]
+  have c10 : lr'.length = get16 u 10 := by rw [hlr, L.nr, hg16 10 (by omega)]
+  constructor
+  · obtain ⟨_, _, qeW, _, _, _, hqr, _⟩ := hwf
+    refine ⟨by omega, by rw [hg16 4 (by omega)]; exact hqd, 12 + labSum ls + 1, ⟨ls, hvq⟩, by omega, hclass, ?_,
+      12 + labSum ls + 1 + 4 + pa.flatten.length, L.o2, 12 + labSum ls + 1 + 4 + pa.flatten.length + pn.flatten.length,
+      L.o3, L.o4, ?_, ?_, ?_⟩
+    · rw [hg16 2 (by omega), hg16 6 (by omega), hg16 8 (by omega)]; exact hqr
+    · rw [← c6]; exact rla.to_RRs
+    · rw [← c8]; exact rln.to_RRs
+    · rw [← c10]; exact rlr.to_RRs
+  · refine ⟨⟨12 + labSum ls + 1, la', ln', lr', _, _, _, _, _, ⟨⟨ls, hvq⟩, by omega⟩, rla, rln, rlr, c6, c8, c10⟩,
+      ⟨ls, hvq, by rw [hwinQ]; exact hqc⟩, cla, cln, clr, tla, tln, tlr, ?_, ?_, ?_, ?_⟩
+    · rw [ola, hqclen]; congr 1
+    · rw [oln, hqclen]; congr 1
+    · rw [olr, hqclen]; congr 1
+    · intro r hr
+      simp only [List.mem_append] at hr
+      rcases hr with (hr | hr) | hr
+      · exact sla r hr
+      · exact sln r hr
+      · exact slr r hr
+
+end Dns.C05
+
+namespace Dns.C05
+open Dns Res
+
+/-- `uncompress_canonical` with the pieces packaged -/
+theorem uncompress_output {p : Bytes} {v : View} (h : parse p = .ok v) (ref : Nat) :
+    ∃ (L : C03.Layout p) (o : Output p L),
+      uncompressWithPreviousOffset p ref =
+        match carried p L ref o.qc o.pa o.pn o.pr with
+        | some n => .ok (o.bytes, n)
+        | none => .panic := by
+  obtain ⟨L, qc, pa, pn, pr, hq, ha, hn, hr, hu⟩ := uncompress_canonical h ref
+  exact ⟨L, ⟨qc, pa, pn, pr, hq, ha, hn, hr⟩, hu⟩
+
+/-- offsets of the pieces of a layout, by section -/
+theorem layout_offsets {p : Bytes} (L : C03.Layout p) :
+    12 < L.qe ∧ L.qe + 4 ≤ L.e2 ∧ L.e2 ≤ L.e3 ∧ L.e3 ≤ p.length ∧
+    (∀ r ∈ L.answers, L.qe + 4 ≤ r.off ∧ r.off < L.e2) ∧ (∀ r ∈ L.authority, L.e2 ≤ r.off ∧ r.off < L.e3) ∧
+    (∀ r ∈ L.additional, L.e3 ≤ r.off ∧ r.off < p.length) := by
+  obtain ⟨ls, hv⟩ := L.hq.1
+  have := hv.2.1.lt
+  obtain ⟨b1, m1⟩ := L.ha.bounds
+  obtain ⟨b2, m2⟩ := L.hn.bounds
+  obtain ⟨b3, m3⟩ := L.hr.bounds
+  exact ⟨this, b1, b2, b3, m1, m2, m3⟩
+
+/-- **the question boundary** (offset 12) stays at 12 -/
+theorem carried_question {p : Bytes} (L : C03.Layout p) (qc : Bytes) (pa pn pr : List Bytes) :
+    carried p L 12 qc pa pn pr = some 12 := by
+  obtain ⟨hq, h1, h2, h3, ma, mn, mr⟩ := layout_offsets L
+  unfold carried
+  have hne : ¬ (12 = p.length) := by omega
+  simp only [if_true, hne, if_false]
+  rw [carry_miss 12 L.answers _ _ _ (fun r hr => by have := ma r hr; omega),
+    carry_miss 12 L.authority _ _ _ (fun r hr => by have := mn r hr; omega),
+    carry_miss 12 L.additional _ _ _ (fun r hr => by have := mr r hr; omega)]
+
+/-- **the end of the packet** goes to the end of the output -/
+theorem carried_end {p : Bytes} (L : C03.Layout p) (qc : Bytes) (pa pn pr : List Bytes) :
+    carried p L p.length qc pa pn pr =
+      some (12 + qc.length + pa.flatten.length + pn.flatten.length + pr.flatten.length) := by
+  unfold carried
+  simp
+
+/-- **an answer record** goes to the start of its canonical form -/
+theorem carried_answer {p : Bytes} (L : C03.Layout p) (qc : Bytes) (pa pn pr : List Bytes)
+    (l1 : List RecPos) (r : RecPos) (l2 : List RecPos) (ps1 : List Bytes) (pc : Bytes) (ps2 : List Bytes)
+    (hl : L.answers = l1 ++ r :: l2) (hp : pa = ps1 ++ pc :: ps2) (hlen : l1.length = ps1.length) :
+    carried p L r.off qc pa pn pr = some (12 + qc.length + ps1.flatten.length) := by
+  obtain ⟨hq, h1, h2, h3, ma, mn, mr⟩ := layout_offsets L
+  have hr := ma r (by rw [hl]; simp)
+  have hlater : ∀ r' ∈ l2, r'.off ≠ r.off := by
+    have := L.ha; rw [hl] at this; exact this.later_ne
+  unfold carried
+  have hne : ¬ (r.off = p.length) := by omega
+  simp only [hne, if_false]
+  rw [carry_miss r.off L.additional _ _ _ (fun x hx => by have := mr x hx; omega),
+    carry_miss r.off L.authority _ _ _ (fun x hx => by have := mn x hx; omega), hl, hp,
+    carry_hit l1 r l2 ps1 pc ps2 _ _ hlen hlater]
+
+theorem carried_authority {p : Bytes} (L : C03.Layout p) (qc : Bytes) (pa pn pr : List Bytes)
+    (l1 : List RecPos) (r : RecPos) (l2 : List RecPos) (ps1 : List Bytes) (pc : Bytes) (ps2 : List Bytes)
+    (hl : L.authority = l1 ++ r :: l2) (hp : pn = ps1 ++ pc :: ps2) (hlen : l1.length = ps1.length) :
+    carried p L r.off qc pa pn pr = some (12 + qc.length + pa.flatten.length + ps1.flatten.length) := by
+  obtain ⟨hq, h1, h2, h3, ma, mn, mr⟩ := layout_offsets L
+  have hr := mn r (by rw [hl]; simp)
+  have hlater : ∀ r' ∈ l2, r'.off ≠ r.off := by
+    have := L.hn; rw [hl] at this; exact this.later_ne
+  unfold carried
+  have hne : ¬ (r.off = p.length) := by omega
+  simp only [hne, if_false]
+  rw [carry_miss r.off L.additional _ _ _ (fun x hx => by have := mr x hx; omega), hl, hp,
+    carry_hit l1 r l2 ps1 pc ps2 _ _ hlen hlater]
+
+theorem carried_additional {p : Bytes} (L : C03.Layout p) (qc : Bytes) (pa pn pr : List Bytes)
+    (l1 : List RecPos) (r : RecPos) (l2 : List RecPos) (ps1 : List Bytes) (pc : Bytes) (ps2 : List Bytes)
+    (hl : L.additional = l1 ++ r :: l2) (hp : pr = ps1 ++ pc :: ps2) (hlen : l1.length = ps1.length) :
+    carried p L r.off qc pa pn pr =
+      some (12 + qc.length + pa.flatten.length + pn.flatten.length + ps1.flatten.length) := by
+  obtain ⟨hq, h1, h2, h3, ma, mn, mr⟩ := layout_offsets L
+  have hr := mr r (by rw [hl]; simp)
+  have hlater : ∀ r' ∈ l2, r'.off ≠ r.off := by
+    have := L.hr; rw [hl] at this; exact this.later_ne
+  unfold carried
+  have hne : ¬ (r.off = p.length) := by omega
+  simp only [hne, if_false]
+  rw [hl, hp, carry_hit l1 r l2 ps1 pc ps2 _ _ hlen hlater]
+
+/-- **decompression succeeds** on every accepted packet, and its result is the canonical output -/
+theorem decompress_ok {p : Bytes} {v : View} (h : parse p = .ok v) :
+    ∃ (L : C03.Layout p) (o : Output p L), uncompress p = .ok o.bytes := by
+  obtain ⟨L, o, hu⟩ := uncompress_output h 12
+  refine ⟨L, o, ?_⟩
+  unfold uncompress
+  simp only [DNS_HEADER_SIZE]
+  rw [hu, carried_question]
+  rfl
+
+/-- **the result is accepted** -/
+theorem decompressed_accepted {p : Bytes} {v : View} (h : parse p = .ok v) {u : Bytes} (hu : uncompress p = .ok u) :
+    ∃ v', parse u = .ok v' := by
+  obtain ⟨L, o, ho⟩ := decompress_ok h
+  rw [ho] at hu
+  simp at hu
+  subst hu
+  exact C02.wf_accepted _ (output_layout h o).1
+
+/-- layouts of the same packet are equal -/
+theorem layout_unique {u : Bytes} (L1 L2 : C03.Layout u) :
+    L1.qe = L2.qe ∧ L1.answers = L2.answers ∧ L1.authority = L2.authority ∧ L1.additional = L2.additional := by
+  have hq : L1.qe = L2.qe := nameEnds_functional L1.hq.1 L2.hq.1
+  have ha := L1.ha
+  rw [hq] at ha
+  obtain ⟨ea, e2⟩ := ha.functional L2.ha (by rw [L1.na, L2.na])
+  have hn := L1.hn
+  rw [e2] at hn
+  obtain ⟨en, e3⟩ := hn.functional L2.hn (by rw [L1.nn, L2.nn])
+  have hr := L1.hr
+  rw [e3] at hr
+  obtain ⟨er, _⟩ := hr.functional L2.hr (by rw [L1.nr, L2.nr])
+  exact ⟨hq, ea, en, er⟩
+
+/-- **a second decompression changes nothing** -/
+theorem decompress_fixed_point {p : Bytes} {v : View} (h : parse p = .ok v) {u : Bytes} (hu : uncompress p = .ok u) :
+    uncompress u = .ok u := by
+  obtain ⟨L, o, ho⟩ := decompress_ok h
+  rw [ho] at hu
+  simp at hu
+  subst hu
+  obtain ⟨hwf, L', hq', ha', hn', hr', _⟩ := output_layout h o
+  obtain ⟨v', h'⟩ := C02.wf_accepted _ hwf
+  obtain ⟨L'', o'', ho''⟩ := decompress_ok h'
+  rw [ho'']
+  obtain ⟨eq, ea, en, er⟩ := layout_unique L'' L'
+  have e1 : o''.qc = o.qc := by have := o''.hq; rw [eq] at this; exact this.functional hq'
+  have e2 : o''.pa = o.pa := by have := o''.ha; rw [ea] at this; exact this.functional ha'
+  have e3 : o''.pn = o.pn := by have := o''.hn; rw [en] at this; exact this.functional hn'
+  have e4 : o''.pr = o.pr := by have := o''.hr; rw [er] at this; exact this.functional hr'
+  congr 1
+  unfold Output.bytes
+  rw [e1, e2, e3, e4]
+  congr 4
+  -- the header of the output is the header of the input
+  have hl : 12 ≤ p.length := (C02.accepted_wf p v h).1
+  have : (p.take 12).length = 12 := by simp; omega
+  simp only [Output.bytes, List.append_assoc]
+  rw [List.take_append_of_le_length (by omega), List.take_of_length_le (by omega)]
+
+end Dns.C05
+
+namespace Dns.C05
+open Dns Res
+
+/-- the output and the carried offset, for *any* layout of the input and its canonical pieces
+(they are unique) -/
+theorem uncompress_any {p : Bytes} {v : View} (h : parse p = .ok v) (ref : Nat) (L : C03.Layout p) (o : Output p L) :
+    uncompressWithPreviousOffset p ref =
+      match carried p L ref o.qc o.pa o.pn o.pr with
+      | some n => .ok (o.bytes, n)
+      | none => .panic := by
+  obtain ⟨L0, o0, hu⟩ := uncompress_output h ref
+  obtain ⟨eq, ea, en, er⟩ := layout_unique L0 L
+  have e1 : o0.qc = o.qc := by have := o0.hq; rw [eq] at this; exact this.functional o.hq
+  have e2 : o0.pa = o.pa := by have := o0.ha; rw [ea] at this; exact this.functional o.ha
+  have e3 : o0.pn = o.pn := by have := o0.hn; rw [en] at this; exact this.functional o.hn
+  have e4 : o0.pr = o.pr := by have := o0.hr; rw [er] at this; exact this.functional o.hr
+  have eb : o0.bytes = o.bytes := by unfold Output.bytes; rw [e1, e2, e3, e4]
+  have ec : carried p L0 ref o0.qc o0.pa o0.pn o0.pr = carried p L ref o.qc o.pa o.pn o.pr := by
+    unfold carried; rw [e1, e2, e3, e4, ea, en, er]
+  rw [hu, eb, ec]
+
+/-- **record boundaries are carried across**: the start of the `i`-th answer / authority /
+additional record of the input goes to the start of the `i`-th such record of the output, the
+question to the question, the end to the end. -/
+theorem boundaries {p : Bytes} {v : View} (h : parse p = .ok v) (L : C03.Layout p) (o : Output p L) :
+    uncompressWithPreviousOffset p 12 = .ok (o.bytes, 12) ∧
+    uncompressWithPreviousOffset p p.length = .ok (o.bytes, o.bytes.length) ∧
+    (∀ l1 r l2 ps1 pc ps2, L.answers = l1 ++ r :: l2 → o.pa = ps1 ++ pc :: ps2 → l1.length = ps1.length →
+      uncompressWithPreviousOffset p r.off = .ok (o.bytes, 12 + o.qc.length + ps1.flatten.length)) ∧
+    (∀ l1 r l2 ps1 pc ps2, L.authority = l1 ++ r :: l2 → o.pn = ps1 ++ pc :: ps2 → l1.length = ps1.length →
+      uncompressWithPreviousOffset p r.off = .ok (o.bytes, 12 + o.qc.length + o.pa.flatten.length + ps1.flatten.length)) ∧
+    (∀ l1 r l2 ps1 pc ps2, L.additional = l1 ++ r :: l2 → o.pr = ps1 ++ pc :: ps2 → l1.length = ps1.length →
+      uncompressWithPreviousOffset p r.off =
+        .ok (o.bytes, 12 + o.qc.length + o.pa.flatten.length + o.pn.flatten.length + ps1.flatten.length)) := by
+  have hl : 12 ≤ p.length := (C02.accepted_wf p v h).1
+  have hH : (p.take 12).length = 12 := by simp; omega
+  refine ⟨?_, ?_, ?_, ?_, ?_⟩
+  · rw [uncompress_any h 12 L o, carried_question]
+  · rw [uncompress_any h p.length L o, carried_end]
+    simp only [Output.bytes, List.length_append, hH]
+  · intro l1 r l2 ps1 pc ps2 hl hp hlen
+    rw [uncompress_any h r.off L o, carried_answer L _ _ _ _ l1 r l2 ps1 pc ps2 hl hp hlen]
+  · intro l1 r l2 ps1 pc ps2 hl hp hlen
+    rw [uncompress_any h r.off L o, carried_authority L _ _ _ _ l1 r l2 ps1 pc ps2 hl hp hlen]
+  · intro l1 r l2 ps1 pc ps2 hl hp hlen
+    rw [uncompress_any h r.off L o, carried_additional L _ _ _ _ l1 r l2 ps1 pc ps2 hl hp hlen]
+
+/-! non-vacuity: the sample packet of C02 (a pointer in the answer's owner name, OPT) decompresses
+to a longer packet, which is a fixed point (kernel evaluation of the model) -/
+def okExpanded : Bytes :=
+  [0, 7, 128, 0, 0, 1, 0, 1, 0, 0, 0, 1, 1, 97, 0, 0, 1, 0, 1, 1, 97, 0, 0, 1, 0, 1, 0, 0, 0, 9, 0, 4, 1, 2, 3, 4, 0, 0,
+   41, 4, 208, 0, 0, 0, 0, 0, 6, 0, 10, 0, 2, 7, 7]
+example : uncompress C02.okPacket = .ok okExpanded := by decide +kernel
+example : uncompress okExpanded = .ok okExpanded := by decide +kernel
+
 end Dns.C05
